@@ -191,9 +191,9 @@ def obligations(tier, seed):
         seqs += rnd.sample([x for x in k3 if cost(*x) <= 3], 20)
         seqs += rnd.sample([x for x in k2core if cost(*x) == 4 and x[0] == ["g1", "g1"]], 6)
     else:
-        seqs = k1 + [x for x in k2 if cost(*x) <= 3] + [x for x in k2core if cost(*x) == 4]
+        seqs = k1 + [x for x in k2core if cost(*x) <= 4] + rnd.sample([x for x in k2 if cost(*x) <= 3], 300)
         seqs += [x for x in k3 if cost(*x) <= 3] + rnd.sample([x for x in k3 if cost(*x) == 4], 120)
-        seqs += rnd.sample([x for x in k4 if cost(*x) == 4], 60) + rnd.sample([x for x in k3 if cost(*x) == 5], 12)
+        seqs += rnd.sample([x for x in k4 if cost(*x) == 4], 60) + rnd.sample([x for x in k3 if cost(*x) == 5], 8)
     # undo-log cancellation with other entries in between (size 4, always included): a triple present at the start is
     # removed, something else changes the store, the triple is re-added (and the mirror image for an absent triple)
     between = [("add", "g1"), ("add", "g2"), ("rm000", "g1"), ("rm011", "g1"), ("rm111", "any")]
